@@ -139,4 +139,45 @@ def hop_scenario(depth):
     trio.run(main)
 for d in range(0, 4 if THOROUGH else 3):
     hop_scenario(d)
+
+
+# the other direction: a FOREIGN thread (not started by Trio) inside from_thread.run(afn, trio_token=...) continues into the
+# system task serving it, and on through every further to_thread / reentrant from_thread alternation
+def foreign_thread_scenario(depth):
+    ev = threading.Event(); arrived = threading.Event(); out = {}
+    async def in_trio(d):
+        if d == 0:
+            arrived.set(); await trio.sleep_forever()
+        else:
+            await trio.to_thread.run_sync(in_thread, d)
+    def in_thread(d):
+        trio.from_thread.run(in_trio, d - 1)
+    def external(token):
+        try: trio.from_thread.run(in_trio, depth, trio_token=token)
+        except BaseException: pass
+    async def main():
+        t = threading.Thread(target=external, args=(trio.lowlevel.current_trio_token(),), daemon=True); t.start()
+        while not arrived.is_set(): await trio.sleep(0.001)
+        await trio.testing.wait_all_tasks_blocked()
+        with warnings.catch_warnings(record=True) as w:
+            warnings.simplefilter("always")
+            st = stackscope.extract(t)
+        out["ds"] = [(f.funcname, f.pyframe.f_locals.get("d")) for f in st.frames if f.funcname in ("in_trio", "in_thread")]
+        out["vis"] = [f.funcname for f in st.frames if not f.hide]; out["err"] = st.error; out["w"] = [str(x.message)[:60] for x in w]
+        raise KeyboardInterrupt          # tear the run down (the worker threads are daemons of Trio's cache)
+    try: trio.run(main)
+    except BaseException: pass
+    return out
+
+import trio.testing
+for d in range(0, 4 if THOROUGH else 3):
+    key = ("foreign-thread-hops", d)
+    leg.case(key, True)
+    o = foreign_thread_scenario(d)
+    want = [x for k in range(d, 0, -1) for x in (("in_trio", k), ("in_thread", k))] + [("in_trio", 0)]
+    if o.get("ds") != want or o.get("err") is not None or o.get("w") or (o.get("vis") or [None])[0] != "external":
+        leg.violation(key, f"foreign thread in from_thread.run, alternation depth {d}: chain {o.get('ds')} != {want}; visible {o.get('vis')}; "
+                           f"error={o.get('err')!r} warnings={o.get('w')}")
+    elif any(n in o["vis"] for n in ("from_thread_run", "_send_message_to_trio", "run_system", "unprotected_afn")):
+        leg.violation(key, f"from_thread plumbing not hidden: {o['vis']}")
 leg.finish(exhaustive=True)
